@@ -1740,7 +1740,7 @@ class FuncFindLast(ValueFunc):
             s = obj.value
             part = args.getString("part").value
             start = args.getInt("start", len(s) - 1).value
-            return ValueInt(obj.value.rfind(part, 0, start))
+            return ValueInt(obj.value.rfind(part, 0, start + len(part)))
         elif obj.isList():
             env = environment
             if key:
